@@ -54,7 +54,7 @@ class C06(Check):
         for j, (h, lines) in enumerate(exhaustive_pool(L)): res.append(('e%d' % j, h, lines))
         ctx.setdefault('cov_extra', {})['exhaustive_prefix_length'] = L
         return res
-    def shrink(self, case, ctx, kind):
+    def shrink(self, case, ctx, kind, sig=None):
         """shorten the schedule while the verdict stays"""
         cid, header, ops = case
         sched = [l for l in ops if l.startswith('sched ')][0].split()[1:]
